@@ -28,7 +28,7 @@ var (
 	kPool     = []string{"k1", "k2", "k3"}
 	vPool     = []string{"v1", "v2", "v3", "v4"}
 	fPool     = []string{"f1", "f2", "f3"}
-	tsPool    = [][][2]int{{{0, 0}}, {{0, 1}}, {{0, 0}, {1, 0}}, {{0, 1}, {1, 2}}, {{1, 3}}} // tag sets: (key idx, value idx)
+	tsPool    = [][][2]int{{{0, 0}}, {{0, 1}}, {{0, 0}, {1, 0}}, {{0, 1}, {1, 2}}, {{1, 3}}, {}} // tag sets: (key idx, value idx); the last one: a series without tags
 	kindNames = map[string]string{"ns": "KNs", "metric": "KMetric", "tagkey": "KTagKey", "tagvalue": "KTagValue", "field": "KField", "series": "KSeries"}
 )
 
@@ -663,7 +663,11 @@ func randomHistory(r *vh.Rand) []step {
 		case x < 48:
 			hs = append(hs, step{K: "tagvalue", A: r.Intn(len(kPool)), B: r.Intn(len(vPool))})
 		case x < 62:
-			hs = append(hs, step{K: "series", A: r.Intn(len(nsPool)), B: r.Intn(len(mPool)), C: r.Intn(len(tsPool))})
+			ts := r.Intn(len(tsPool))
+			if r.Chance(20) {
+				ts = len(tsPool) - 1 // the series without tags
+			}
+			hs = append(hs, step{K: "series", A: r.Intn(len(nsPool)), B: r.Intn(len(mPool)), C: ts})
 		case x < 66:
 			hs = append(hs, step{K: "prepare"})
 			prepared = true
@@ -725,6 +729,10 @@ func corpus() []corpusCase {
 		{name: "a flush window with new metrics of a known namespace only, crash, a new metric", disc: true, hs: []step{
 			{K: "metric", A: 0, B: 0}, {K: "tagkey", A: 0, B: 0, C: 0}, {K: "tagvalue", A: 0, B: 0}, fl,
 			{K: "metric", A: 0, B: 1}, fl, {K: "crash"}, {K: "metric", A: 0, B: 2}, {K: "look"}}},
+		{name: "a series without tags between two tagged series of one metric, flush, crash, more of both", disc: true, hs: []step{
+			{K: "metric", A: 0, B: 0}, {K: "series", A: 0, B: 0, C: 0}, {K: "series", A: 0, B: 0, C: 5}, {K: "series", A: 0, B: 0, C: 1}, {K: "look"},
+			fl, {K: "iflush"}, {K: "crash"}, {K: "series", A: 0, B: 0, C: 2}, {K: "metric", A: 0, B: 1}, {K: "series", A: 0, B: 1, C: 5}, {K: "series", A: 0, B: 1, C: 0},
+			{K: "series", A: 0, B: 0, C: 5}, {K: "look"}}},
 		{name: "crash after the counter sync only", disc: true, hs: []step{
 			{K: "metric", A: 0, B: 0}, {K: "tagkey", A: 0, B: 0, C: 0},
 			{K: "flush", Hooks: [4][]hookStep{{{K: "crash"}}, nil, nil, nil}},
